@@ -28,6 +28,8 @@ def propFailures (env : Env) (cands : List Nat) (pre : Screen) (c : Call) (post 
     [("C05", s!"expected cursor {repr (C05.expected pre c)}, got ({post.cursor.x},{post.cursor.y}), or something other than the cursor position changed")]) ++
   (if C06.propC06 cands pre c post then [] else
     [("C06", s!"grid / cursor / margins after {c.name} differ from the documented outcome (cursor ({post.cursor.x},{post.cursor.y}), margins {repr post.margins})")]) ++
+  (if C06.propC06wrap env pre c post then [] else
+    [("C06", s!"autowrap on the bottom margin did not scroll the region up by exactly one line (cursor ({post.cursor.x},{post.cursor.y}), margins {repr post.margins})")]) ++
   (if C07.propC07 cands pre c post then [] else
     [("C07", s!"cells after {c.name} differ from the documented erased region, or cursor/settings changed")]) ++
   (if C13.propC13 cands pre c post then [] else
